@@ -893,7 +893,12 @@ class FortranReaderBase:
                     return item
                 reader.info("including file %r" % (path), item)
                 self.reader = FortranFileReader(
-                    path, include_dirs=include_dirs, ignore_comments=ignore_comments
+                    path,
+                    include_dirs=include_dirs,
+                    ignore_comments=ignore_comments,
+                    include_omp_conditional_lines=(
+                        self._include_omp_conditional_lines
+                    ),
                 )
                 # The included text takes the place of the INCLUDE line and
                 # so is in the source form of the including source.
